@@ -45,11 +45,12 @@ type c12Scenario struct {
 	SendNew    bool // a datagram from a new remote arrives during the controlled phase
 	SendOld    bool // a datagram from an accepted remote arrives during the controlled phase
 	Batch      bool
+	Inside     bool // the listener is created inside the session: its read loop and closer goroutine are tasks
 }
 
 func (sc c12Scenario) String() string {
-	return fmt.Sprintf("accepted=%d unaccepted=%d lclose=%d cclose=%v accept=%d readers=%v sendNew=%v sendOld=%v batch=%v",
-		sc.Accepted, sc.Unaccepted, sc.LClose, sc.CClose, sc.Accept, sc.Readers, sc.SendNew, sc.SendOld, sc.Batch)
+	return fmt.Sprintf("accepted=%d unaccepted=%d lclose=%d cclose=%v accept=%d readers=%v sendNew=%v sendOld=%v batch=%v inside=%v",
+		sc.Accepted, sc.Unaccepted, sc.LClose, sc.CClose, sc.Accept, sc.Readers, sc.SendNew, sc.SendOld, sc.Batch, sc.Inside)
 }
 
 func genC12(t *rapid.T) c12Scenario {
@@ -61,6 +62,7 @@ func genC12(t *rapid.T) c12Scenario {
 		SendNew:    rapid.IntRange(0, 3).Draw(t, "sendNew") == 0,
 		SendOld:    rapid.IntRange(0, 3).Draw(t, "sendOld") == 0,
 		Batch:      rapid.IntRange(0, 5).Draw(t, "batch") == 0,
+		Inside:     rapid.IntRange(0, 5).Draw(t, "inside") == 3,
 	}
 	for i := 0; i < sc.Accepted; i++ {
 		sc.CClose = append(sc.CClose, rapid.SampledFrom([]int{0, 1, 1, 2}).Draw(t, "cclose"))
@@ -69,9 +71,28 @@ func genC12(t *rapid.T) c12Scenario {
 	return sc
 }
 
-func udpFrames() []string {
+// udpGoroutines returns the ids of the goroutines that currently have a frame
+// in package udp (taken at the start of a case: leftovers of earlier, failed
+// or discarded cases must not be charged to this one).
+func udpGoroutines() map[int64]bool {
+	r := map[int64]bool{}
+	for _, g := range sched.Snapshot() {
+		for _, f := range g.Frames {
+			if strings.HasPrefix(f, "github.com/pion/transport/v3/udp.") {
+				r[g.ID] = true
+				break
+			}
+		}
+	}
+	return r
+}
+
+func udpFrames(before map[int64]bool) []string {
 	var r []string
 	for _, g := range sched.Snapshot() {
+		if before[g.ID] {
+			continue
+		}
 		for _, f := range g.Frames {
 			if strings.HasPrefix(f, "github.com/pion/transport/v3/udp.") {
 				r = append(r, fmt.Sprintf("goroutine %d [%s] %s", g.ID, g.State, f))
@@ -95,22 +116,23 @@ func runC12(sc c12Scenario, ch sched.Chooser, c *ev.Case, logf func(string, ...a
 			msg = fmt.Sprintf(f, a...)
 		}
 	}
+	before := udpGoroutines()
 	lc := udp.ListenConfig{}
 	if sc.Batch {
 		lc.Batch = udp.BatchIOConfig{Enable: true, ReadBatchSize: 4, WriteBatchSize: 1, WriteBatchInterval: time.Millisecond}
 	}
-	ln, err := lc.Listen("udp", &net.UDPAddr{IP: loop, Port: 0})
-	if err != nil {
-		return "VERIF-INFRA: listen: " + err.Error()
-	}
-	laddr := ln.Addr().(*net.UDPAddr)
+	var ln net.Listener
+	var laddr *net.UDPAddr
 	var remotes []*net.UDPConn
+	var rmu sync.Mutex
 	newRemote := func() *net.UDPConn {
 		r, err := net.DialUDP("udp", nil, laddr)
 		if err != nil {
 			panic(err)
 		}
+		rmu.Lock()
 		remotes = append(remotes, r)
+		rmu.Unlock()
 		return r
 	}
 	var cleanup []func()
@@ -118,52 +140,69 @@ func runC12(sc c12Scenario, ch sched.Chooser, c *ev.Case, logf func(string, ...a
 		for _, f := range cleanup {
 			f()
 		}
+		rmu.Lock()
 		for _, r := range remotes {
 			_ = r.Close()
 		}
+		rmu.Unlock()
 	}()
 
-	// ---- setup (free running) ------------------------------------------------
+	// ---- setup: free running, or (sc.Inside) as the first task of the session ---------
 	var accepted []net.Conn
 	var accRemote []*net.UDPConn
-	for i := 0; i < sc.Accepted; i++ {
-		r := newRemote()
-		if _, err := r.Write([]byte(fmt.Sprintf("hello-%d", i))); err != nil {
-			return "VERIF-INFRA: " + err.Error()
-		}
-		cn, err := ln.Accept()
+	setup := func() string {
+		var err error
+		ln, err = lc.Listen("udp", &net.UDPAddr{IP: loop, Port: 0})
 		if err != nil {
-			return "VERIF-INFRA: setup accept: " + err.Error()
+			return "VERIF-INFRA: listen: " + err.Error()
 		}
-		buf := make([]byte, 64)
-		if _, err := cn.Read(buf); err != nil {
-			return "VERIF-INFRA: setup read: " + err.Error()
-		}
-		accepted = append(accepted, cn)
-		accRemote = append(accRemote, r)
-	}
-	for i := 0; i < sc.Unaccepted; i++ {
-		r := newRemote()
-		_, _ = r.Write([]byte(fmt.Sprintf("pending-%d", i)))
-	}
-	if sc.Unaccepted > 0 {
-		if sc.Accepted > 0 {
-			// marker through the single-threaded read loop: the pending ones are dispatched
-			_, _ = accRemote[0].Write([]byte("marker"))
-			buf := make([]byte, 64)
-			_ = accepted[0].SetReadDeadline(time.Now().Add(3 * time.Second))
-			if _, err := accepted[0].Read(buf); err != nil {
-				return "VERIF-INFRA: marker: " + err.Error()
+		laddr = ln.Addr().(*net.UDPAddr)
+		for i := 0; i < sc.Accepted; i++ {
+			r := newRemote()
+			if _, err := r.Write([]byte(fmt.Sprintf("hello-%d", i))); err != nil {
+				return "VERIF-INFRA: " + err.Error()
 			}
-			_ = accepted[0].SetReadDeadline(time.Time{})
-		} else {
-			time.Sleep(2 * time.Millisecond)
+			cn, err := ln.Accept()
+			if err != nil {
+				return "VERIF-INFRA: setup accept: " + err.Error()
+			}
+			buf := make([]byte, 64)
+			if _, err := cn.Read(buf); err != nil {
+				return "VERIF-INFRA: setup read: " + err.Error()
+			}
+			accepted = append(accepted, cn)
+			accRemote = append(accRemote, r)
+		}
+		for i := 0; i < sc.Unaccepted; i++ {
+			r := newRemote()
+			_, _ = r.Write([]byte(fmt.Sprintf("pending-%d", i)))
+		}
+		if sc.Unaccepted > 0 {
+			if sc.Accepted > 0 {
+				// marker through the single-threaded read loop: the pending ones are dispatched
+				_, _ = accRemote[0].Write([]byte("marker"))
+				buf := make([]byte, 64)
+				_ = accepted[0].SetReadDeadline(time.Now().Add(3 * time.Second))
+				if _, err := accepted[0].Read(buf); err != nil {
+					return "VERIF-INFRA: marker: " + err.Error()
+				}
+				_ = accepted[0].SetReadDeadline(time.Time{})
+			} else {
+				time.Sleep(2 * time.Millisecond)
+			}
+		}
+		return ""
+	}
+	if !sc.Inside {
+		if m := setup(); m != "" {
+			return m
 		}
 	}
 
 	// ---- controlled phase -------------------------------------------------------
 	s := sched.New()
 	s.QuiesceGap = 1500 * time.Microsecond
+	s.MaxSteps = 6000
 	install(s)
 	sessionOver := false
 	endSession := func() {
@@ -173,6 +212,26 @@ func runC12(sc c12Scenario, ch sched.Chooser, c *ev.Case, logf func(string, ...a
 		sessionOver = true
 		s.Abort()
 	}
+	ready := make(chan struct{})
+	setupMsg := ""
+	if sc.Inside {
+		s.Go("setup", func() {
+			setupMsg = setup()
+			close(ready)
+		})
+	} else {
+		close(ready)
+	}
+	// every scenario task starts only when the setup is complete
+	wait := func(f func()) func() {
+		return func() {
+			<-ready
+			if setupMsg != "" {
+				return
+			}
+			f()
+		}
+	}
 	var mu sync.Mutex
 	lcloseDone := 0
 	var lcloseErrs []error
@@ -181,34 +240,34 @@ func runC12(sc c12Scenario, ch sched.Chooser, c *ev.Case, logf func(string, ...a
 	readRes := make([]*acceptResult, sc.Accepted)
 	var lcloseTasks []*sched.Task
 	for k := 0; k < sc.LClose; k++ {
-		lcloseTasks = append(lcloseTasks, s.Go(fmt.Sprintf("lclose%d", k), func() {
+		lcloseTasks = append(lcloseTasks, s.Go(fmt.Sprintf("lclose%d", k), wait(func() {
 			err := ln.Close()
 			mu.Lock()
 			lcloseDone++
 			lcloseErrs = append(lcloseErrs, err)
 			mu.Unlock()
-		}))
+		})))
 	}
 	for i, n := range sc.CClose {
 		i, n := i, n
 		for k := 0; k < n; k++ {
-			s.Go(fmt.Sprintf("cclose%d.%d", i, k), func() {
+			s.Go(fmt.Sprintf("cclose%d.%d", i, k), wait(func() {
 				_ = accepted[i].Close()
 				mu.Lock()
 				ccloseDone[i]++
 				mu.Unlock()
-			})
+			}))
 		}
 	}
 	for k := 0; k < sc.Accept; k++ {
 		k := k
 		accRes[k] = &acceptResult{}
-		s.Go(fmt.Sprintf("accept%d", k), func() {
+		s.Go(fmt.Sprintf("accept%d", k), wait(func() {
 			cn, err := ln.Accept()
 			mu.Lock()
 			accRes[k].conn, accRes[k].err, accRes[k].done = cn, err, true
 			mu.Unlock()
-		})
+		}))
 	}
 	for i, rd := range sc.Readers {
 		if !rd {
@@ -216,27 +275,34 @@ func runC12(sc c12Scenario, ch sched.Chooser, c *ev.Case, logf func(string, ...a
 		}
 		i := i
 		readRes[i] = &acceptResult{}
-		s.Go(fmt.Sprintf("read%d", i), func() {
+		s.Go(fmt.Sprintf("read%d", i), wait(func() {
 			buf := make([]byte, 64)
 			_, err := accepted[i].Read(buf)
 			mu.Lock()
 			readRes[i].err, readRes[i].done = err, true
 			mu.Unlock()
-		})
+		}))
 	}
 	if sc.SendNew {
-		r := newRemote()
-		s.Go("send-new", func() { _, _ = r.Write([]byte("late-new")) })
+		s.Go("send-new", wait(func() { _, _ = newRemote().Write([]byte("late-new")) }))
 	}
 	if sc.SendOld && sc.Accepted > 0 {
-		s.Go("send-old", func() { _, _ = accRemote[0].Write([]byte("late-old")) })
+		s.Go("send-old", wait(func() { _, _ = accRemote[0].Write([]byte("late-old")) }))
 	}
 	defer func() {
 		endSession()
+		// an interrupted setup task goes on in pass-through mode: let it finish
+		// so that everything it creates is closed below
+		select {
+		case <-ready:
+		case <-time.After(3 * time.Second):
+		}
 		// release everything the scenario left open -- from helper goroutines:
 		// on a broken tree a Close may block for ever
 		var toClose []interface{ Close() error }
-		toClose = append(toClose, ln)
+		if ln != nil {
+			toClose = append(toClose, ln)
+		}
 		for _, cn := range accepted {
 			toClose = append(toClose, cn)
 		}
@@ -283,6 +349,17 @@ func runC12(sc c12Scenario, ch sched.Chooser, c *ev.Case, logf func(string, ...a
 			fail("C12: task %s panicked: %v", t.Name, p)
 			return
 		}
+	}
+	select {
+	case <-ready:
+	default:
+		return "VERIF-INFRA: the setup task did not complete\n" + s.Describe()
+	}
+	if setupMsg != "" {
+		return setupMsg
+	}
+	if sc.Inside && c != nil {
+		c.Label("listener-goroutines-as-tasks")
 	}
 	blocked := map[string]*sched.Task{}
 	for _, t := range s.BlockedTasks() {
@@ -360,14 +437,14 @@ func runC12(sc c12Scenario, ch sched.Chooser, c *ev.Case, logf func(string, ...a
 			pc, err := net.ListenUDP("udp", laddr)
 			if err == nil {
 				_ = pc.Close()
-				if fr := udpFrames(); len(fr) == 0 {
+				if fr := udpFrames(before); len(fr) == 0 {
 					break
 				} else if time.Now().After(deadline) {
 					fail("C12: the listener and every accepted connection are closed, but goroutines of the package are still running: %v\n%s", fr, s.Describe())
 					return
 				}
 			} else if time.Now().After(deadline) {
-				fail("C12: the listener and every accepted connection are closed, but the port cannot be bound again: %v (package goroutines: %v)\n%s", err, udpFrames(), s.Describe())
+				fail("C12: the listener and every accepted connection are closed, but the port cannot be bound again: %v (package goroutines: %v)\n%s", err, udpFrames(before), s.Describe())
 				return
 			}
 			time.Sleep(200 * time.Microsecond)
